@@ -282,6 +282,20 @@ def run(prog, rep, tier):
         rep.examined(R125, k_, sample={"rule": "R11.3", "instance": k_})
     rep.floor("R12.5", 2)
 
+    # ------------------------------------------------------------ R12.7 lift of C13 R13.8
+    import c13 as _c13
+    R127 = rep.rule("R12.7", "the datetime highlight does not depend on where block boundaries fall inside a line (from C13 R13.8)")
+    _sub13 = Report("C13", "quick", dict(rep.meta))
+    _sub13.finish = lambda *a, **k: 0
+    with _cl.redirect_stdout(_io.StringIO()):
+        _c13.run(prog, _sub13, "quick")
+    for (rid_, key_, what_, det_) in _sub13.violations:
+        if rid_ == "R13.8":
+            rep.violation(R127, key_.split("|", 1)[1], what_)
+    for k_ in sorted(_sub13.rules.get("R13.8", {}).get("keys", ())):
+        rep.examined(R127, k_, sample={"rule": "R13.8", "instance": k_})
+    rep.floor("R12.7", 4)
+
     # ------------------------------------------------------------ R12.6
     R126 = rep.rule("R12.6", "a partial line found by the block-bounded line search can extend to the end of the block")
     partial_extent(prog, rep, R126)
